@@ -462,6 +462,91 @@ pub fn run(tier: Tier) -> Run {
         seqs.par_iter().map(|h| run_seq(h, false)).collect()
     };
     let longrange_n = longrange.len() as u64;
+    // ---- function structure with ids drawn from {1, 2, 3}: declared function types (with parameter lists), functions
+    //      naming them, parameters whose types agree or disagree with the declaration, several functions carrying the same
+    //      result id, with and without bodies. The loader brackets instructions; it does not type-check or merge them.
+    let fstruct = {
+        use crate::model::Arg;
+        let tf = |r: u32, ret: u32, ps: &[u32]| {
+            let mut a = vec![Arg::IdRef(ret)];
+            a.extend(ps.iter().map(|p| Arg::IdRef(*p)));
+            Inst::new("TypeFunction", None, Some(r), a)
+        };
+        let func = |r: u32, t: u32| Inst::new("Function", Some(2), Some(r), vec![Arg::Mask("FunctionControl", 0), Arg::IdRef(t)]);
+        let full: Vec<Inst> = vec![
+            tf(1, 2, &[2]),
+            tf(1, 2, &[1]),
+            tf(2, 1, &[]),
+            func(1, 1),
+            func(1, 2),
+            func(2, 1),
+            func(3, 3),
+            Inst::new("FunctionParameter", Some(1), Some(3), vec![]),
+            Inst::new("FunctionParameter", Some(2), Some(3), vec![]),
+            Inst::new("Label", None, Some(1), vec![]),
+            Inst::new("Label", None, Some(3), vec![]),
+            Inst::new("Return", None, None, vec![]),
+            Inst::new("FunctionEnd", None, None, vec![]),
+        ];
+        let small: Vec<Inst> = vec![func(1, 1), func(2, 1), Inst::new("FunctionParameter", Some(1), Some(3), vec![]), Inst::new("Label", None, Some(3), vec![]), Inst::new("Return", None, None, vec![]), Inst::new("FunctionEnd", None, None, vec![])];
+        let idx_full: Vec<usize> = (0..full.len()).collect();
+        let idx_small: Vec<usize> = (0..small.len()).collect();
+        let ff = |h: &[usize]| run_seq(&h.iter().map(|&k| full[k].clone()).collect::<Vec<_>>(), false);
+        let fs = |h: &[usize]| run_seq(&h.iter().map(|&k| small[k].clone()).collect::<Vec<_>>(), false);
+        let x = xs::enumerate(&idx_full, tier.pick(5, 6), &ff);
+        let y = xs::enumerate(&idx_small, tier.pick(7, 9), &fs);
+        (x, y)
+    };
+    run.add_all(fstruct.0.viols.clone());
+    run.add_all(fstruct.1.viols.clone());
+    run.outcome("function_structure_sequences", fstruct.0.histories_replayed + fstruct.1.histories_replayed);
+    // ---- ONE Loader used for two parses in a row: the second parse must behave as the model fed both streams predicts or
+    //      at least not panic (the loader carries its state over; what is fixed is: no panic, and a module it hands out is
+    //      well bracketed)
+    {
+        let firsts: Vec<Vec<&str>> = vec![vec![], vec!["Capability"], vec!["Function"], vec!["Function", "Label"], vec!["Function", "Label", "IAdd"], vec!["Function", "Label", "Return"], vec!["Function", "Label", "Return", "FunctionEnd"], vec!["Function", "FunctionParameter"], vec!["Label"], vec!["Return"]];
+        let mut n = 0u64;
+        let res: Vec<Option<crate::report::Viol>> = firsts
+            .par_iter()
+            .flat_map_iter(|f1| {
+                let f1 = f1.clone();
+                g.insts.iter().map(move |gi| (f1.clone(), gi))
+            })
+            .map(|(f1, gi)| {
+                let h1: Vec<Inst> = f1.iter().enumerate().map(|(s, n)| rep_inst(n, s)).collect();
+                let mut y = universe::minimal(gi);
+                if y.rid.is_some() {
+                    y.rid = Some(900);
+                }
+                let mk = |v: &[Inst]| {
+                    let mut w = model::header(0x0001_0300, 0, 1000);
+                    for i in v {
+                        w.extend(model::enc(i));
+                    }
+                    w
+                };
+                let (w1, w2) = (mk(&h1), mk(&[y.clone()]));
+                let r = guarded(|| {
+                    let mut l = dr::Loader::new();
+                    let _ = rspirv::binary::parse_words(&w1, &mut l);
+                    let _ = rspirv::binary::parse_words(&w2, &mut l);
+                    let m = l.module();
+                    well_bracketed(&crate::bsys::snap(&m))
+                });
+                match r {
+                    Err(p) => Some(viol(format!("C05:panic@{}:loader-reused", crate::report::panic_class(&p)), format!("a Loader used for a second parse panics: {} (first stream {:?}, second Op{})", p, f1, gi.name), json!({"kind": "c05-loader-reuse", "first": w1, "second": w2}))),
+                    Ok(_) => None,
+                }
+            })
+            .collect();
+        for v in res.into_iter() {
+            n += 1;
+            if let Some(v) = v {
+                run.add(v);
+            }
+        }
+        run.outcome("loader_reuse_pairs", n);
+    }
     // ---- every one of the 787 opcodes substituted for its class in each of the three loader states
     let prefixes: [Vec<&str>; 3] = [vec![], vec!["Function"], vec!["Function", "Label"]];
     let subs: Vec<Step> = g
